@@ -177,8 +177,9 @@ func InitFourthB(e eps.T0, z zeta.T1) Fourth {
 	// it uses values of the same types and same-named imports as app, so that any table shared between packages shows
 	files["other1/o.go"] = "package other1\n\nimport bcfg \"example.com/m/beta/cfg\"\n\ntype X struct {\n\tS string\n\tN int\n\tL []string\n\tB bcfg.T0\n}\n"
 	files["other1/wire.go"] = "//go:build wireinject\n// +build wireinject\n\npackage other1\n\nimport (\n\tbcfg \"example.com/m/beta/cfg\"\n\t\"github.com/google/wire\"\n)\n\nfunc InitX() X {\n\tpanic(wire.Build(bcfg.Set, wire.Value(\"other\"), wire.Value(5), wire.Value([]string{\"o\"}), wire.Struct(new(X), \"*\")))\n}\n"
-	files["aaa/o.go"] = files["other1/o.go"][:0] + "package aaa\n\ntype X struct {\n\tS string\n\tN int\n}\n"
-	files["aaa/wire.go"] = "//go:build wireinject\n// +build wireinject\n\npackage aaa\n\nimport \"github.com/google/wire\"\n\nfunc InitX() X {\n\tpanic(wire.Build(wire.Value(\"first\"), wire.Value(9), wire.Struct(new(X), \"*\")))\n}\n"
+	// aaa is processed before app; it has a package-level identifier cfg, so IT must import alpha/cfg under another name
+	files["aaa/o.go"] = "package aaa\n\nimport acfg \"example.com/m/alpha/cfg\"\n\ntype X struct {\n\tS string\n\tN int\n\tA acfg.T0\n}\n\nfunc cfg() {}\n\nfunc gamma() {}\n"
+	files["aaa/wire.go"] = "//go:build wireinject\n// +build wireinject\n\npackage aaa\n\nimport (\n\tacfg \"example.com/m/alpha/cfg\"\n\t\"github.com/google/wire\"\n)\n\nfunc InitX() X {\n\tpanic(wire.Build(acfg.Set, wire.Value(\"first\"), wire.Value(9), wire.Struct(new(X), \"*\")))\n}\n"
 	files["other2/o.go"] = "package other2\n\nvar V = 1\n"
 	return files
 }
@@ -436,8 +437,12 @@ func splitDep(files map[string]string) (own, dep map[string]string) {
 
 // writeModuleWithDep lays the program out in module mode: the dependency is a second module reached by a replace directive.
 func writeModuleWithDep(dir string, files map[string]string) {
+	writeModuleWithDepPath(dir, files, "example.com/m")
+}
+
+func writeModuleWithDepPath(dir string, files map[string]string, modPath string) {
 	own, dep := splitDep(files)
-	mf := h.ModuleFiles("example.com/m")
+	mf := h.ModuleFiles(modPath)
 	mf["go.mod"] = strings.Replace(mf["go.mod"], "require github.com/google/wire v0.0.0\n", "require (\n\tgithub.com/google/wire v0.0.0\n\texample.org/dep v0.0.0\n)\n\nreplace example.org/dep => ./depmod\n", 1)
 	h.WriteFiles(dir, mf)
 	h.WriteFiles(dir, own)
@@ -487,6 +492,11 @@ func c16Configurations(c *h.Check, thorough bool, viol func(id, sym, detail stri
 			jobs = append(jobs, job{l, loc})
 		}
 	}
+	// the whole program again under an import path that itself contains "vendor" and "-vendor/" fragments
+	// (own reference: module mode under that path)
+	for _, l := range layouts {
+		jobs = append(jobs, job{l, "vendorish"})
+	}
 	var wg sync.WaitGroup
 	ch := make(chan job)
 	for w := 0; w < 8; w++ {
@@ -497,10 +507,19 @@ func c16Configurations(c *h.Check, thorough bool, viol func(id, sym, detail stri
 				base := filepath.Join(c.S.Dir("cfg"), j.loc)
 				var root string
 				var env []string
+				files := files
+				modPath := "example.com/m"
+				if j.loc == "vendorish" {
+					modPath = "example.com/acme-vendor/xvendor/m"
+					files = map[string]string{}
+					for p, cnt := range richProgram(0) {
+						files[p] = strings.ReplaceAll(cnt, "example.com/m", modPath)
+					}
+				}
 				switch j.layout {
 				case "module", "module+vendor":
 					root = base
-					writeModuleWithDep(root, files)
+					writeModuleWithDepPath(root, files, modPath)
 					env = h.BaseEnv("GOCACHE=" + c.S.GoCache)
 					if j.layout == "module+vendor" {
 						r := h.Run(root, env, 120e9, "go", "mod", "vendor")
@@ -512,7 +531,7 @@ func c16Configurations(c *h.Check, thorough bool, viol func(id, sym, detail stri
 					}
 				default:
 					gp := base
-					root = filepath.Join(gp, "src", "example.com", "m")
+					root = filepath.Join(gp, "src", filepath.FromSlash(modPath))
 					own, dep := splitDep(files)
 					h.WriteFiles(root, own)
 					wdir := filepath.Join(gp, "src", "github.com", "google", "wire")
@@ -534,9 +553,10 @@ func c16Configurations(c *h.Check, thorough bool, viol func(id, sym, detail stri
 					{"cwd=pkg,.", filepath.Join(root, "app"), []string{"gen", "."}},
 					{"cwd=pkg,default", filepath.Join(root, "app"), []string{"gen"}},
 					{"cwd=root,./app", root, []string{"gen", "./app"}},
-					{"cwd=root,importpath", root, []string{"gen", "example.com/m/app"}},
+					{"cwd=root,importpath", root, []string{"gen", modPath + "/app"}},
 					{"cwd=root,./...", root, []string{"gen", "./..."}},
 					{"cwd=root,app+others", root, []string{"gen", "./other1", "./app", "./other2"}},
+					{"cwd=root,aaa-first", root, []string{"gen", "./aaa", "./app"}},
 				}
 				for _, in := range invs {
 					for rep := 0; rep < 2; rep++ {
@@ -559,18 +579,21 @@ func c16Configurations(c *h.Check, thorough bool, viol func(id, sym, detail stri
 	close(ch)
 	wg.Wait()
 	sort.Slice(results, func(i, j int) bool { return results[i].id < results[j].id })
-	ref := ""
+	refs := map[bool]string{}
 	for _, r := range results {
 		if strings.Contains(r.id, "layout=module/") && strings.Contains(r.id, "inv=cwd=pkg,.") {
-			ref = r.out
-			break
+			v := strings.Contains(r.id, "loc=9/") // len("vendorish") == 9
+			if refs[v] == "" {
+				refs[v] = r.out
+			}
 		}
 	}
-	if ref == "" {
+	if refs[false] == "" || refs[true] == "" {
 		c.Internalf("no reference output for the configuration matrix")
 		return runs, 0
 	}
 	for _, r := range results {
+		ref := refs[strings.Contains(r.id, "loc=9/")]
 		if r.exit != 0 || r.out == "" {
 			viol(r.id, "config-generation-failed", fmt.Sprintf("generation failed (exit %d) in this configuration although it succeeds in module mode:\n%s", r.exit, clip(r.err, 800)), nil)
 			continue
